@@ -12,14 +12,14 @@ import (
 
 // CheckDef configures one txpipe-based check.
 type CheckDef struct {
-	ID            string
-	Groups        []string
-	Oracles       Oracles
-	QuickBound    int
-	ThoroughBound int
-	Rule          string
-	Assumptions   []string
-	QuickBudget   float64
+	ID             string
+	Groups         []string
+	Oracles        Oracles
+	QuickBound     int
+	ThoroughBound  int
+	Rule           string
+	Assumptions    []string
+	QuickBudget    float64
 	ThoroughBudget float64
 }
 
@@ -34,12 +34,21 @@ var commonAssumptions = []string{
 func build(c *lib.Ctx, d CheckDef) []*sched.Scenario {
 	var out []*sched.Scenario
 	for _, sc := range Group(d.Groups...) {
-		if sc.Heavy && c.Quick() {
+		if only := os.Getenv("VERIF_ONLY"); only != "" && !strings.Contains(sc.Name, only) {
 			continue
 		}
 		sc.MaxBound = lib.Pick(c, d.QuickBound, d.ThoroughBound)
-		if sc.Heavy {
-			sc.MaxBound = 1
+		if sc.Heavy || sc.Persist || len(sc.Admin) > 0 || len(sc.Clients) > 2 {
+			// three or more client-side threads: the free choices at blocking points
+			// multiply, so these scenarios are explored with delay bounding (every
+			// departure from the default schedule costs one deviation) in the quick
+			// tier and with preemption bound 1 in the thorough tier
+			if c.Quick() {
+				sc.FreeCost = 1
+				sc.MaxBound = 2
+			} else {
+				sc.MaxBound = 1
+			}
 		}
 		out = append(out, NewScenario(sc, d.Oracles))
 	}
